@@ -883,3 +883,186 @@ func reachableFromSucc(from, to *ssa.BasicBlock) bool {
 	}
 	return false
 }
+
+// ---------------------------------------------------------------------------
+// C09: R-ASSERT-ATOMIC — added with fix F40.  A database update that raises an error leaves the database as
+// it was.  In every engine function that returns an `error` and writes VM.procedures or userDefined.clauses
+// (assertMerge today), no return of a possibly non-nil error is reachable from the write: every check and every
+// fallible step (renamedCopy, compile, the static-procedure test) comes before the first mutation.
+func ruleAssertAtomic(c *Ctx, r *Report) {
+	const rule = "R-ASSERT-ATOMIC"
+	var sites []writeSite
+	sites = append(sites, c.stateWrites("VM", "procedures")...)
+	sites = append(sites, c.stateWrites("userDefined", "clauses")...)
+	n := map[string]int{}
+	funcs := map[*ssa.Function]bool{}
+	var asserts []*ssa.Function
+	for _, name := range []string{"asserta", "assertz"} {
+		if f := c.registeredFn(name, 1); f != nil {
+			asserts = append(asserts, f)
+		}
+	}
+	if len(asserts) != 2 {
+		r.undecided(rule, "anchor:assert", "-", "locate asserta/1 and assertz/1", "not registered")
+		return
+	}
+	fromAssert := func(fn *ssa.Function) bool {
+		for _, a := range asserts {
+			if a == fn || c.staticallyReaches(a, fn) {
+				return true
+			}
+		}
+		return false
+	}
+	// a call of a function that writes the database is a write as well
+	writers := map[*ssa.Function]bool{}
+	for _, s := range sites {
+		if !s.fresh {
+			writers[s.fn] = true
+		}
+	}
+	for _, fn := range c.LibFuncs() {
+		if funcPkg(fn) != c.Engine || !fromAssert(fn) {
+			continue
+		}
+		eachInstr(fn, func(in ssa.Instruction) {
+			if call, ok := in.(*ssa.Call); ok {
+				if callee := call.Call.StaticCallee(); callee != nil && callee != fn && writers[callee] {
+					sites = append(sites, writeSite{fn, in, "call of " + fname(callee), false})
+				}
+			}
+		})
+	}
+	for _, s := range sites {
+		res := s.fn.Signature.Results()
+		if res.Len() == 0 || !isErrorType(res.At(res.Len()-1).Type()) || funcPkg(s.fn) != c.Engine {
+			continue
+		}
+		if st, ok := s.in.(*ssa.Store); ok {
+			if _, ok := st.Val.(*ssa.MakeMap); ok {
+				continue // an empty table in place of a nil one: not a change of the database
+			}
+		}
+		if s.fresh || !fromAssert(s.fn) {
+			continue // (*VM).Compile runs initialization goals after the text is loaded: their failure is an error after the commit by design
+		}
+		funcs[s.fn] = true
+		n[fname(s.fn)+"/"+s.what]++
+		key := fmt.Sprintf("%s/%s#%d", fname(s.fn), s.what, n[fname(s.fn)+"/"+s.what])
+		desc := "no error return is reachable once the database has been written (check everything, then update)"
+		var hit *ssa.Return
+		seen := map[*ssa.BasicBlock]bool{}
+		stack := []*ssa.BasicBlock{s.in.Block()}
+		for len(stack) > 0 && hit == nil {
+			b := stack[len(stack)-1]
+			stack = stack[:len(stack)-1]
+			if seen[b] {
+				continue
+			}
+			seen[b] = true
+			if ret, ok := b.Instrs[len(b.Instrs)-1].(*ssa.Return); ok && len(ret.Results) > 0 {
+				for _, l := range c.originSet(ret.Results[len(ret.Results)-1]) {
+					if k, ok := l.(*ssa.Const); ok && k.IsNil() {
+						continue
+					}
+					hit = ret
+				}
+			}
+			stack = append(stack, b.Succs...)
+		}
+		if hit != nil {
+			r.bad(rule, key, c.at(s.in), desc, "an error return at "+c.at(hit)+" is reachable after this write: the failed update stays visible (an assert that raises type_error(callable, _) leaves an empty dynamic procedure behind)")
+		} else {
+			r.ok(rule, key, c.at(s.in), desc, "every return reachable from the write returns a nil error", true)
+		}
+	}
+	var names []string
+	for f := range funcs {
+		names = append(names, fname(f))
+	}
+	sort.Strings(names)
+	r.analysed(rule, names...)
+}
+
+// C09: R-ABSENT-NOT-STATIC — added with fix F41.  permission_error(_, static_procedure | private_procedure, PI)
+// says that PI names a procedure of that kind; a built-in raises it only where the looked-up procedure exists
+// (the comma-ok of the VM.procedures lookup is known true) or where an absent one has been replaced by a
+// fresh dynamic procedure on the way (assertMerge).  abolish/1, retract/1, clause/2 and assert are siblings here.
+func ruleAbsentNotStatic(c *Ctx, r *Report) {
+	const rule = "R-ABSENT-NOT-STATIC"
+	pe := c.fn("permissionError")
+	if pe == nil {
+		r.undecided(rule, "anchor:permissionError", "-", "locate permissionError", "not found")
+		return
+	}
+	kinds := map[int64]string{}
+	for _, name := range []string{"permissionTypeStaticProcedure", "permissionTypePrivateProcedure"} {
+		k, ok := c.Engine.Members[name].(*ssa.NamedConst)
+		if !ok {
+			r.undecided(rule, "anchor:"+name, "-", "locate the constant", "not found")
+			return
+		}
+		v, _ := constInt(k.Value)
+		kinds[v] = name
+	}
+	n := map[string]int{}
+	for _, fn := range c.LibFuncs() {
+		eachInstr(fn, func(in ssa.Instruction) {
+			call, ok := in.(*ssa.Call)
+			if !ok || call.Call.StaticCallee() != pe || len(call.Call.Args) < 2 {
+				return
+			}
+			v, ok := constInt(call.Call.Args[1])
+			if !ok || kinds[v] == "" {
+				return
+			}
+			n[fname(fn)]++
+			key := fmt.Sprintf("%s/%s#%d", fname(fn), kinds[v], n[fname(fn)])
+			desc := "permission_error(_, static/private_procedure, PI) is raised only for a procedure that exists"
+			// (a) the lookup's comma-ok is known true here
+			for f := range c.factsAt(in.Block()) {
+				if ex, ok := f.cond.(*ssa.Extract); ok && ex.Index == 1 && f.pol {
+					if lk, ok := ex.Tuple.(*ssa.Lookup); ok && lk.CommaOk {
+						if _, ok := loadsField(lk.X, "VM", "procedures"); ok {
+							r.ok(rule, key, c.at(in), desc, "under the comma-ok of the VM.procedures lookup at "+c.at(lk), true)
+							return
+						}
+					}
+				}
+			}
+			// (b) the tested procedure is the looked-up one or a fresh dynamic procedure that replaces an absent one
+			var tas []*ssa.TypeAssert
+			eachInstr(fn, func(x ssa.Instruction) {
+				if ta, ok := x.(*ssa.TypeAssert); ok && ta.CommaOk && isEngNamed(deref(ta.AssertedType), "userDefined") && ta.Block().Dominates(in.Block()) {
+					tas = append(tas, ta)
+				}
+			})
+			for _, ta := range tas {
+				fresh, looked := false, false
+				for _, l := range c.originSet(ta.X) {
+					if ex, ok := l.(*ssa.Extract); ok {
+						l = ex.Tuple
+					}
+					if mi, ok := l.(*ssa.MakeInterface); ok {
+						l = mi.X
+					}
+					switch x := l.(type) {
+					case *ssa.Alloc:
+						if isEngNamed(deref(x.Type()), "userDefined") {
+							fresh = true
+						}
+					case *ssa.Lookup:
+						if _, ok := loadsField(x.X, "VM", "procedures"); ok && x.CommaOk {
+							looked = true
+						}
+					}
+				}
+				if fresh && looked {
+					r.ok(rule, key, c.at(in), desc, "the tested procedure is the looked-up one or the fresh dynamic procedure that stands in for an absent one", true)
+					return
+				}
+			}
+			r.bad(rule, key, c.at(in), desc, "this error is also reached when VM.procedures has no entry for PI (a type assertion on the missing map value fails just like one on a built-in): a procedure that does not exist is reported as static/private")
+		})
+	}
+}
